@@ -88,6 +88,30 @@ Ltac store0 HWc HLc Hcol :=
   rewrite py_set_col_of by lia; rs;
   rewrite py_set_colsof_upd2 by (try lia; apply (widths_nth _ _ _ HWc); lia); rs.
 
+Lemma py_nth_col_of_0 R col : (0 < length R)%nat ->
+  py_nth (col_of R col) 0 = Ret (cell_label (nth col (nth 0 R []) None)).
+Proof. exact (py_nth_col_of R col 0). Qed.
+
+Lemma py_nth_col_of_1 R col : (1 < length R)%nat ->
+  py_nth (col_of R col) 1 = Ret (cell_label (nth col (nth 1 R []) None)).
+Proof. exact (py_nth_col_of R col 1). Qed.
+
+(* the inlined closure `_zero()` against [zero_call] *)
+Ltac zero_tac a zs fr :=
+  destruct zs as [|? ?]; cbn [py_truth negb zero_call]; rs;
+  [ unfold mkzero; rs; destruct a as [|? ?];
+    [ rewrite py_nth_0; cbn [nthP nth_res nth_error ret_res]; rs; reflexivity
+    | rewrite py_nth_0; cbn [nthP nth_res nth_error ret_res]; rs;
+      rewrite ?py_nth_0; cbn [nthP nth_res nth_error ret_res]; rs;
+      change (TT false false false false) with tt_false;
+      match goal with |- context [run fr (gate_tt tt_false ?x ?y) ?st] =>
+        destruct (run fr (gate_tt tt_false x y) st) as [[? ?]|?]; rs; [|reflexivity] end;
+      cbn [app]; rewrite py_nth_0; cbn [nthP nth_res nth_error ret_res]; rs; try reflexivity ]
+  | rewrite py_nth_0; cbn [nthP nth_res nth_error ret_res]; rs; try reflexivity ].
+
+Lemma Z_of_nat_S_eqb_0 k : (Z.of_nat (S k) =? 0) = false.
+Proof. apply Z.eqb_neq. lia. Qed.
+
 Theorem gen_add_mul_wallace_eq a0 b0 be : peq (gen_add_mul_wallace a0 b0 be) (add_mul_wallace a0 b0 be).
 Proof.
   unfold gen_add_mul_wallace, add_mul_wallace. intros fresh s. cbv zeta.
@@ -182,8 +206,18 @@ Proof.
             (* two or three gates: sum and carry *)
             all: destruct ES as (sa & sb & -> & _ & _); cbn [length fst snd];
               change (py_range 0 (Z.of_nat 2)) with [0; 1]; cbn [foldP]; rs;
-              store0 HWc HLc Hcol.
-            Show. all: admit. }
+              store0 HWc HLc Hcol;
+              replace (Z.of_nat col + 1) with (Z.of_nat (S col)) by lia; rewrite Z_ltb_nat; unfold grp_put; cbn [fst snd];
+              destruct (Nat.ltb_spec (S col) NN) as [Hc1|Hc1]; rs; [|reflexivity];
+              match goal with |- context [py_nth [?x; ?y] 1] => change (py_nth [x; y] 1) with (@Ret label y) end; rs;
+              rewrite py_nth_colsof by exact Hc1; rs;
+              match goal with |- context [2 * Z.of_nat ?g + 1] =>
+                replace (2 * Z.of_nat g + 1) with (Z.of_nat (2 * g + 1)) by lia end;
+              rewrite py_set_col_of by (rewrite upd2_length; lia); rs;
+              rewrite py_set_colsof_upd2
+                by first [ exact Hc1 | rewrite upd2_length; lia
+                         | apply (widths_nth _ _ _ (widths_upd2 _ _ _ _ _ HWc)); rewrite upd2_length; lia ];
+              rs; reflexivity. }
       destruct (run fresh (round_groups (length R / 3) R) st) as [[out s2]|e] eqn:ER; rs; [|reflexivity].
       rewrite !col_of_length, len_sub_mod3.
       rewrite (tail_rows_eq fresh NN _ R (3 * (length R / 3))); [ | | exact HGL ].
@@ -196,5 +230,61 @@ Proof.
             rewrite py_nth_col_of by lia. rs.
             rewrite py_set_nat by (apply (lt_len _ _ _ Hcn Hcol)). rs. reflexivity. }
       rs. reflexivity. }
-  Show.
-Admitted.
+  rs.
+  destruct (run fresh (wallace_loop m R0) s1) as [[R' s2]|e] eqn:EL; rs; [|reflexivity].
+  destruct (wallace_loop_ok NN HN1 m R0 (conj HW HG) fresh s1 R' s2 EL) as [[HW' HG'] HL'].
+  destruct R' as [|r0 [|r1 [|? ?]]]; try discriminate HL'. clear HL' EL.
+  assert (Hl0 : length r0 = NN) by exact (Forall_inv HW').
+  assert (Hl1 : length r1 = NN) by exact (Forall_inv (Forall_inv_tail HW')).
+  assert (G0 : good r0) by exact (Forall_inv HG').
+  assert (G1 : good r1) by exact (Forall_inv (Forall_inv_tail HG')).
+  change Cirbo.Generated.ArithTables.PLACEHOLDER_STR with Cirbo.Model.ArithMul.PLACEHOLDER_STR.
+  (* _last_gate(0), _last_gate(1) *)
+  rewrite (filter_m_eq fresh _ (fun z => is_some (nth (Z.to_nat z) r0 None))).
+  2:{ intros x st Hx. rewrite py_range_0_nat in Hx. apply in_map_iff in Hx as (i & <- & Hi). apply in_seq in Hi.
+      rs. rewrite py_nth_colsof by lia. rs. rewrite py_nth_col_of_0 by (cbn [length]; lia). rs. cbn [nth].
+      rewrite good_cell_test by (apply good_nth; exact G0). rewrite Nat2Z.id. reflexivity. }
+  rs. pose proof (last_gate_filter fresh r0) as LG0. rewrite Hl0 in LG0. rewrite LG0. clear LG0. rs.
+  rewrite (filter_m_eq fresh _ (fun z => is_some (nth (Z.to_nat z) r1 None))).
+  2:{ intros x st Hx. rewrite py_range_0_nat in Hx. apply in_map_iff in Hx as (i & <- & Hi). apply in_seq in Hi.
+      rs. rewrite py_nth_colsof by lia. rs. rewrite py_nth_col_of_1 by (cbn [length]; lia). rs. cbn [nth].
+      rewrite good_cell_test by (apply good_nth; exact G1). rewrite Nat2Z.id. reflexivity. }
+  rs. pose proof (last_gate_filter fresh r1) as LG1. rewrite Hl1 in LG1. rewrite LG1. clear LG1. rs.
+  (* the last loop *)
+  match goal with |- context [foldP ?F (py_range 0 (Z.of_nat NN)) ([], [], 0, [])] =>
+    pose proof (final_loop_eq fresh a r0 r1 NN F Hl0 Hl1) as HF end.
+  match type of HF with ?P -> _ => assert (HP : P) end.
+  { intros i st Hi fr st'. destruct st as [[[la lb] sh] zs]. cbv beta iota. unfold fin_step.
+    rs. rewrite py_nth_colsof by lia. rs. rewrite py_nth_col_of_0 by (cbn [length]; lia). rs. cbn [nth].
+    rewrite good_cell_test by (apply good_nth; exact G0).
+    match goal with |- match run fr ?P1 st' with _ => _ end = match run fr ?Q1 st' with _ => _ end =>
+      assert (H1 : run fr P1 st' = run fr Q1 st') end.
+    { destruct (nth i r0 None) as [l0|] eqn:E0; cbn [is_some]; rs.
+      - rewrite py_nth_col_of_0 by (cbn [length]; lia). rs. cbn [nth]. rewrite E0. reflexivity.
+      - destruct (Z.of_nat i <? last_gate r0); rs; [|reflexivity].
+        zero_tac a zs fr. }
+    rewrite H1. clear H1.
+    match goal with |- match run fr ?Q1 st' with _ => _ end = _ =>
+      destruct (run fr Q1 st') as [[[la' zs'] st'']|e]; [|reflexivity] end.
+    cbv beta iota. cbn [fst snd]. rs.
+    rewrite py_nth_col_of_1 by (cbn [length]; lia). rs. cbn [nth].
+    rewrite good_cell_test by (apply good_nth; exact G1).
+    destruct (nth i r1 None) as [l1|] eqn:E1; cbn [is_some]; rs.
+    - rewrite py_nth_col_of_1 by (cbn [length]; lia). rs. cbn [nth]. rewrite E1. reflexivity.
+    - unfold py_len. destruct lb as [|b1 lb']; cbn [length].
+      { change (Z.of_nat 0 =? 0) with true. rs. reflexivity. }
+      rewrite !Z_of_nat_S_eqb_0. rs.
+      destruct (Z.of_nat i <? last_gate r1); rs; [|reflexivity].
+      zero_tac a zs' fr. }
+  specialize (HF HP s2). clear HP.
+  match goal with |- context [run fresh (foldP ?F ?l ?i) s2] =>
+    remember (run fresh (foldP F l i) s2) as X eqn:EX end.
+  destruct (run fresh (wallace_final a r0 r1) s2) as [[[[sh la] lb] s3]|e].
+  - destruct HF as [zs HF].
+    assert (EX' : X = Ok (la, lb, Z.of_nat sh, zs, s3)) by (rewrite EX; exact HF).
+    rewrite EX'. clear HF EX EX' X. cbn [fst snd]. rs.
+    rewrite py_shift_nat.
+    destruct (run fresh (add_sum_two_numbers_with_shift sh la lb false) s3) as [[r s4]|e]; rs; [|reflexivity].
+    rewrite py_slice_to, gen_reverse_if_big_endian_run. reflexivity.
+  - assert (EX' : X = Err e) by (rewrite EX; exact HF). rewrite EX'. reflexivity.
+Qed.
